@@ -344,10 +344,11 @@ class AdaptiveSupport(BaseAdaptiveSupport):
             else:
                 alpha = -self.target_rate
             dsigmas = alpha * dk * self.deltas/10.
-            # ensure we don't go negative
+            # ensure we don't go negative or to zero (a zero width is not a
+            # proposal distribution)
             sigmas = self._std
             newsigmas = sigmas + dsigmas
-            lzidx = newsigmas < 0
+            lzidx = newsigmas <= 0
             newsigmas[lzidx] = sigmas[lzidx]
             self._std = newsigmas
             self._update_proposal()
